@@ -86,7 +86,10 @@ enum Op {
 ///   2 = 2 ms ahead (really parks when not satisfied)         3 = one hour ahead
 /// Code 3 is generated only where the harness's own bookkeeping (op log) says the call returns at once; every
 /// call with code >= 2 runs on a helper thread and is given up after `WAIT_GUARD`.
-const WAIT_GUARD: Duration = Duration::from_secs(20);
+const WAIT_GUARD: Duration = Duration::from_secs(10);
+/// waits given up so far: after the second one the guard shrinks (a tree on which such waits hang would
+/// otherwise cost minutes; the verdict is there after the first)
+static WAITS_GIVEN_UP: std::sync::atomic::AtomicU64 = std::sync::atomic::AtomicU64::new(0);
 
 impl Op {
     fn line(&self, idx: &str) -> String {
@@ -409,7 +412,11 @@ fn call_wait(tc: &Arc<TransferControl>, op: &Op) -> Ret {
     std::thread::spawn(move || {
         let _ = tx.send(run());
     });
-    rx.recv_timeout(WAIT_GUARD).unwrap_or(Ret::Blocked)
+    let guard = if WAITS_GIVEN_UP.load(std::sync::atomic::Ordering::Relaxed) >= 2 { Duration::from_millis(300) } else { WAIT_GUARD };
+    rx.recv_timeout(guard).unwrap_or_else(|_| {
+        WAITS_GIVEN_UP.fetch_add(1, std::sync::atomic::Ordering::Relaxed);
+        Ret::Blocked
+    })
 }
 
 /// Run one op on the real object.
